@@ -8,11 +8,27 @@
 (*   screen.go  screen.setCell (final bounds check)                         *)
 (* It follows the repaired code: a cell wider than the columns left at a    *)
 (* level is refused, and Print / Wrap start a new row before a cluster that *)
-(* does not fit.  Setting Repaired to FALSE gives the code as it was found  *)
-(* (TLC then exhibits the wide-cluster-in-the-last-column escape).          *)
+(* does not fit.  The switches fx = [wide, measure] give the code as it was *)
+(* found:                                                                   *)
+(*   wide = FALSE     no overhang test at all (TLC then exhibits the wide-  *)
+(*                    cluster-in-the-last-column escape);                   *)
+(*   measure = FALSE  the overhang test trusts the width stated in the cell *)
+(*                    (0 = "left to be measured" passes it although the     *)
+(*                    renderer later measures the glyph as wide), and Wrap  *)
+(*                    places and advances by the width of the Unicode       *)
+(*                    tables (item field u) instead of the width the        *)
+(*                    terminal gives the cluster (field w): its measuring   *)
+(*                    loop assigned to a copy.                              *)
 EXTENDS Integers, Sequences
 
 None == <<>>
+AllFixed == [wide |-> TRUE, measure |-> TRUE]
+
+(* The width SetCell's overhang test sees for a cell stated dw wide that    *)
+(* the terminal shows mw wide.                                              *)
+Eff(dw, mw, fx) == IF dw # 0 THEN dw ELSE IF fx.measure THEN mw ELSE 0
+(* The width of the Unicode tables for an item (w when not given). *)
+UW(it) == IF "u" \in DOMAIN it THEN it.u ELSE it.w
 
 (* A window value is [col, row, w, h, par]; par = index of the parent in    *)
 (* the sequence of windows, 0 = no parent.  wins[1] is vx.Window().         *)
@@ -34,87 +50,93 @@ IBuild(chain, i, wins) ==
                    [] OTHER        -> [col |-> lv.c, row |-> lv.r, w |-> lv.w, h |-> lv.h, par |-> 0]
        IN IBuild(chain, i + 1, Append(wins, nw))
 
-IScreenSet(x, y, cw, cols, rows, repaired) ==
+IScreenSet(x, y, cw, cols, rows, fx) ==
   IF x < 0 \/ y < 0 THEN None
   ELSE IF x >= cols THEN None
   ELSE IF y >= rows THEN None
-  ELSE IF repaired /\ cw > 1 /\ x + cw > cols THEN None
+  ELSE IF fx.wide /\ cw > 1 /\ x + cw > cols THEN None
   ELSE <<x, y>>
 
-(* Window.SetCell of window i with a cell cw columns wide: where the cell   *)
-(* lands on the screen, or None.                                            *)
+(* Window.SetCell of window i with a cell whose width, as the overhang test *)
+(* sees it, is cw (= Eff(stated, shown, fx)): where the cell lands on the   *)
+(* screen, or None.                                                         *)
 RECURSIVE ISetCell(_, _, _, _, _, _, _, _)
-ISetCell(wins, i, col, row, cw, cols, rows, repaired) ==
+ISetCell(wins, i, col, row, cw, cols, rows, fx) ==
   LET win == wins[i] IN
   IF row >= win.h \/ col >= win.w THEN None
   ELSE IF row < 0 \/ col < 0 THEN None
-  ELSE IF repaired /\ cw > 1 /\ col + cw > win.w THEN None
-  ELSE IF win.par = 0 THEN IScreenSet(col + win.col, row + win.row, cw, cols, rows, repaired)
-  ELSE ISetCell(wins, win.par, col + win.col, row + win.row, cw, cols, rows, repaired)
+  ELSE IF fx.wide /\ cw > 1 /\ col + cw > win.w THEN None
+  ELSE IF win.par = 0 THEN IScreenSet(col + win.col, row + win.row, cw, cols, rows, fx)
+  ELSE ISetCell(wins, win.par, col + win.col, row + win.row, cw, cols, rows, fx)
 
 (* Window.Fill: the set of screen cells written. *)
-IFill(wins, i, cols, rows, repaired) ==
-  {ISetCell(wins, i, c, r, 1, cols, rows, repaired) : c \in 0..(wins[i].w - 1), r \in 0..(wins[i].h - 1)} \ {None}
+IFill(wins, i, cols, rows, fx) ==
+  {ISetCell(wins, i, c, r, 1, cols, rows, fx) : c \in 0..(wins[i].w - 1), r \in 0..(wins[i].h - 1)} \ {None}
 
 ----------------------------------------------------------------------------
 (* Text helpers inside one window of size cols x rows: the sequence of      *)
-(* SetCell calls [x, y, i] they make (i = index of the item, 0 = ellipsis). *)
-(* items are already tab-expanded (Characters does that).                   *)
-Call(x, y, i) == [x |-> x, y |-> y, i |-> i]
+(* SetCell calls [x, y, i, d] they make (i = index of the item, 0 = the      *)
+(* ellipsis; d = the width stated in the cell).  items are already          *)
+(* tab-expanded (Characters does that).                                     *)
+Call(x, y, i, d) == [x |-> x, y |-> y, i |-> i, d |-> d]
 
 RECURSIVE IPrint(_, _, _, _, _, _, _, _)
-IPrint(items, i, col, row, calls, cols, rows, repaired) ==
+IPrint(items, i, col, row, calls, cols, rows, fx) ==
   IF i > Len(items) THEN calls
   ELSE LET it == items[i] IN
-       IF it.k = "nl" THEN IPrint(items, i + 1, 0, row + 1, calls, cols, rows, repaired)
+       IF it.k = "nl" THEN IPrint(items, i + 1, 0, row + 1, calls, cols, rows, fx)
        ELSE IF row > rows THEN calls
-       ELSE LET wrapFirst == repaired /\ col + it.w > cols
+       ELSE LET wrapFirst == fx.wide /\ col + it.w > cols
                 c0 == IF wrapFirst THEN 0 ELSE col
                 r0 == IF wrapFirst THEN row + 1 ELSE row
                 c1 == c0 + it.w
             IN IF c1 >= cols
-               THEN IPrint(items, i + 1, 0, r0 + 1, Append(calls, Call(c0, r0, i)), cols, rows, repaired)
-               ELSE IPrint(items, i + 1, c1, r0, Append(calls, Call(c0, r0, i)), cols, rows, repaired)
+               THEN IPrint(items, i + 1, 0, r0 + 1, Append(calls, Call(c0, r0, i, it.w)), cols, rows, fx)
+               ELSE IPrint(items, i + 1, c1, r0, Append(calls, Call(c0, r0, i, it.w)), cols, rows, fx)
 
 RECURSIVE IPrintlnFrom(_, _, _, _, _, _)
 IPrintlnFrom(items, i, col, row, calls, cols) ==
   IF i > Len(items) THEN calls
   ELSE LET w == items[i].w IN
        IF col + w > cols THEN calls
-       ELSE IPrintlnFrom(items, i + 1, col + w, row, Append(calls, Call(col, row, i)), cols)
+       ELSE IPrintlnFrom(items, i + 1, col + w, row, Append(calls, Call(col, row, i, w)), cols)
 IPrintln(items, row, cols, rows) == IF row >= rows THEN <<>> ELSE IPrintlnFrom(items, 1, 0, row, <<>>, cols)
 
 RECURSIVE ITruncFrom(_, _, _, _, _, _)
 ITruncFrom(items, i, col, row, calls, cols) ==
   IF i > Len(items) THEN calls
   ELSE LET w == items[i].w IN
-       IF col + 1 + w > cols THEN Append(calls, Call(col, row, 0))
-       ELSE ITruncFrom(items, i + 1, col + w, row, Append(calls, Call(col, row, i)), cols)
+       IF col + 1 + w > cols THEN Append(calls, Call(col, row, 0, 1))
+       ELSE ITruncFrom(items, i + 1, col + w, row, Append(calls, Call(col, row, i, w)), cols)
 ITrunc(items, row, cols, rows) == IF row >= rows THEN <<>> ELSE ITruncFrom(items, 1, 0, row, <<>>, cols)
 
-(* Wrap: line segments end at a break opportunity (b = 1) or a line break. *)
+(* Wrap: line segments end at a break opportunity (b = 1) or a line break.  *)
+(* WW = the width Wrap works with: the terminal's when it measures, the     *)
+(* Unicode tables' when its measurement is lost.                            *)
 IEnds(it) == it.b = 1 \/ it.k = "nl"
-RECURSIVE ISegTotal(_, _)
-ISegTotal(items, i) ==
+WW(it, fx) == IF fx.measure THEN it.w ELSE UW(it)
+RECURSIVE ISegTotal(_, _, _)
+ISegTotal(items, i, fx) ==
   IF i > Len(items) THEN 0
-  ELSE items[i].w + (IF IEnds(items[i]) THEN 0 ELSE ISegTotal(items, i + 1))
+  ELSE WW(items[i], fx) + (IF IEnds(items[i]) THEN 0 ELSE ISegTotal(items, i + 1, fx))
 
 RECURSIVE IWrap(_, _, _, _, _, _, _, _)
-IWrap(items, i, col, row, calls, cols, rows, repaired) ==
+IWrap(items, i, col, row, calls, cols, rows, fx) ==
   IF i > Len(items) THEN calls
   ELSE LET it == items[i]
+           iw == WW(it, fx)
            first == i = 1 \/ IEnds(items[i - 1])
        IN IF first /\ row >= rows THEN calls
-          ELSE LET total == ISegTotal(items, i)
+          ELSE LET total == ISegTotal(items, i, fx)
                    newline == first /\ ~(total > cols) /\ total + col > cols
                    c00 == IF newline THEN 0 ELSE col
                    r00 == IF newline THEN row + 1 ELSE row
-               IN IF it.k = "nl" THEN IWrap(items, i + 1, 0, r00 + 1, calls, cols, rows, repaired)
-                  ELSE LET wrapFirst == repaired /\ c00 + it.w > cols
+               IN IF it.k = "nl" THEN IWrap(items, i + 1, 0, r00 + 1, calls, cols, rows, fx)
+                  ELSE LET wrapFirst == fx.wide /\ c00 + iw > cols
                            c0 == IF wrapFirst THEN 0 ELSE c00
                            r0 == IF wrapFirst THEN r00 + 1 ELSE r00
-                           c1 == c0 + it.w
+                           c1 == c0 + iw
                        IN IF c1 >= cols
-                          THEN IWrap(items, i + 1, 0, r0 + 1, Append(calls, Call(c0, r0, i)), cols, rows, repaired)
-                          ELSE IWrap(items, i + 1, c1, r0, Append(calls, Call(c0, r0, i)), cols, rows, repaired)
+                          THEN IWrap(items, i + 1, 0, r0 + 1, Append(calls, Call(c0, r0, i, iw)), cols, rows, fx)
+                          ELSE IWrap(items, i + 1, c1, r0, Append(calls, Call(c0, r0, i, iw)), cols, rows, fx)
 =============================================================================
